@@ -66,7 +66,7 @@ def bounds(tier, seed):
         "fields": {"reduced_shapes": "{1,2,3}^3", "field_types": ["E", "H"], "basis": "all 3*nx*ny*nz basis arrays + one dense array"},
         "detectors": {
             "kinds": ["FieldDetector", "PhasorDetector", "EnergyDetector (spatial/reduced/slices)", "PoyntingFluxDetector (planes normal to each axis, thick box)", "ClosedSurfacePoyntingFluxDetector", "PhasorPoyntingFluxDetector", "ClosedSurfacePhasorPoyntingFluxDetector"],
-            "component_subsets": "8 (quick) / all 63 (thorough) for Field; 3 for Phasor",
+            "component_subsets": "5 (quick) / all 63 (thorough) for Field; 3 for Phasor",
             "flags": "reduce_volume, exact_interpolation, direction, keep_all_components",
             "boxes": ["whole domain (straddles every plane)", "clipped asymmetrically", "starts on the plane (not clipped)"],
             "grids": ["uniform", "mirror-symmetric distinct widths"] + (["seed widths"] if seed else []),
@@ -186,15 +186,15 @@ def _menu(case, sym, red, full):
     tier = case["tier"]
     dets = []
     waves = [{"wavelength": 4.1e-7}, {"wavelength": 7.7e-7}]
-    subsets = SUBSETS_Q if tier == "quick" else _all_subsets()
+    subsets = SUBSETS_Q[:5] if tier == "quick" else _all_subsets()
     for tag, box in _boxes(sym, red, full):
         for ex in (True, False):
             e = "x" if ex else "r"
-            subs = subsets if tag == "whole" else SUBSETS_Q[:3]
+            subs = subsets if tag == "whole" else (SUBSETS_Q[:3] if tag == "clipped" else SUBSETS_Q[:1])
             for si, cs in enumerate(subs):
                 for redv in (False, True):
                     dets.append(dict(kind="field", name=f"F_{tag}_{e}_{si}_{int(redv)}", box=box, exact_interpolation=ex, components=list(cs), reduce_volume=redv, pair=f"F_{tag}_{e}_{si}"))
-            for si, cs in enumerate(SUBSETS_Q[:3]):
+            for si, cs in enumerate(SUBSETS_Q[:3] if tag == "whole" else SUBSETS_Q[2:3]):
                 for redv in (False, True):
                     dets.append(dict(kind="phasor", name=f"P_{tag}_{e}_{si}_{int(redv)}", box=box, exact_interpolation=ex, components=list(cs), reduce_volume=redv, wave_characters=waves, pair=f"P_{tag}_{e}_{si}"))
             dets.append(dict(kind="energy", name=f"E_{tag}_{e}_0", box=box, exact_interpolation=ex, pair=f"E_{tag}_{e}"))
@@ -221,8 +221,8 @@ def _menu(case, sym, red, full):
         dict(kind="closed", name="X_closed", box=whole, exact_interpolation=True),
         dict(kind="closed_phasor", name="X_closed_phasor", box=whole, exact_interpolation=True, wave_characters=waves),
         dict(kind="phasor_poynting", name="X_phasor_poynting", box=plane, exact_interpolation=True, wave_characters=waves, direction="+"),
-        dict(kind="poynting", name="X_keepall", box=plane, exact_interpolation=True, direction="+", keep_all_components=True, reduce_volume=False),
-        dict(kind="poynting", name="X_keepall_red", box=plane, exact_interpolation=True, direction="+", keep_all_components=True, reduce_volume=True),
+        dict(kind="poynting", name="X_keepall", box=plane, exact_interpolation=True, direction="+", keep_all_components=True, reduce_volume=False, pair="Sk"),
+        dict(kind="poynting", name="X_keepall_red", box=plane, exact_interpolation=True, direction="+", keep_all_components=True, reduce_volume=True, pair="Sk"),
     ]
     return dets, special
 
@@ -263,17 +263,19 @@ def _run_detectors(case):
         fails.setdefault(sig, dict(sig=sig, detail=detail))
 
     # special kinds may not even be placeable (see C16/C17 keep_all finding): add them one by one
-    spec_ok = dict(spec, detectors=[{k: v for k, v in d.items() if k != "pair"} for d in menu])
+    def strip(d):
+        return {k: v for k, v in d.items() if k != "pair"}
+
+    spec_ok = dict(spec, detectors=[strip(d) for d in menu])
     placed_special = []
     for d in special:
         try:
-            scenes.make_detector({k: v for k, v in d.items()}, 0)
-            trial = dict(spec, detectors=[d])
+            trial = dict(spec, detectors=[strip(d)])
             DS.build(trial, check_boxes=False)
             placed_special.append(d)
         except Exception as e:
             fail(f"placement-raises:{d['kind']}:{'keep_all_components' if d.get('keep_all_components') else 'plain'}:{type(e).__name__}", dict(det=d["name"], error=repr(e)[:200]))
-    spec_ok["detectors"] = spec_ok["detectors"] + placed_special
+    spec_ok["detectors"] = spec_ok["detectors"] + [strip(d) for d in placed_special]
     sc = DS.build(spec_ok, check_boxes=False)
     if tuple(sc.objects.volume.grid_shape) != red:
         raise RuntimeError(f"harness: reduced volume {sc.objects.volume.grid_shape} != {red}")
@@ -284,6 +286,7 @@ def _run_detectors(case):
     evals = nontriv = 0
     outcomes = {}
     tab = {}
+    base_arrays = sc.arrays.aset("detector_states", {})
 
     def tabulate(name):
         """matrix of the real unfold of detector `name` on all basis arrays of its stored state (dict key -> (M, shape))."""
@@ -298,7 +301,7 @@ def _run_detectors(case):
             for k, sz in zip(keys, sizes):
                 s[k] = v[o : o + sz].reshape(st[k].shape).astype(st[k].dtype)
                 o += sz
-            a = sc.arrays.aset("detector_states", {name: s})
+            a = base_arrays.aset("detector_states", {name: s})
             return fdtdx.unfold_detector_states(a, sc.objects, sc.config).detector_states[name]
 
         with jax.disable_jit():
@@ -341,8 +344,11 @@ def _run_detectors(case):
             continue
         nontriv += 1
         outcomes[cls] = outcomes.get(cls, 0) + 1
-        if d.get("reduce_volume") or name.startswith("X_"):
-            continue  # reduced: handled with its spatial partner below; special kinds: only required not to raise / see below
+        if d.get("reduce_volume") or kind in ("closed", "closed_phasor"):
+            continue  # reduced: handled with its spatial partner below; closed-surface kinds: only required not to raise
+        if kind == "phasor_poynting":
+            kind = "phasor"
+            d = dict(d, components=list(ALL))
         # ---- spatial records against the parity / index table
         if kind in ("field", "phasor"):
             cs = _comp_spec(d["components"])
@@ -364,6 +370,11 @@ def _run_detectors(case):
             specs = {1 + a: (1.0, a in onp_axes) for a in range(3) if touched[a]}
             Mexp, fs = O.unfold_matrix(arr_shape, specs)
             _cmp(fail, desc, cls, out["energy"], X, Mexp, fs)
+        elif kind == "poynting" and d.get("keep_all_components"):
+            arr_shape = st["poynting_flux"].shape  # (T, 3, nx, ny, nz)
+            specs = {2 + a: (np.array([-1.0 if i == a else 1.0 for i in range(3)]).reshape(1, 3, 1, 1, 1), a in onp_axes) for a in range(3) if touched[a]}
+            Mexp, fs = O.unfold_matrix(arr_shape, specs)
+            _cmp(fail, desc, cls, out["poynting_flux"], X, Mexp, fs)
         elif kind == "poynting":
             arr_shape = st["poynting_flux"].shape
             pa = d.get("fixed_propagation_axis")
@@ -386,7 +397,7 @@ def _run_detectors(case):
                 _cmp(fail, dict(desc, plane=k), cls, out[k], Xk, Mexp, fs, block=(sum(sizes), o - sz, sz))
     # ---- reduced records: unfold(reduce_half(s)) == reduce_full(unfold(s)) on all basis arrays s of the spatial record
     pairs = {}
-    for d in menu:
+    for d in menu + [x for x in placed_special if x.get("pair")]:
         pairs.setdefault(d["pair"], {})["red" if d.get("reduce_volume") else ("slices" if d.get("as_slices") else "sp")] = d
     for pid, grp in pairs.items():
         if "sp" not in grp or grp["sp"]["name"] not in tab:
@@ -424,6 +435,14 @@ def _run_detectors(case):
             elif kind == "energy" and which == "red":
                 red_h = np.tensordot(S_h, vol_h, axes=([-3, -2, -1], [0, 1, 2]))[..., None]
                 red_f = np.tensordot(S_f, vol_f, axes=([-3, -2, -1], [0, 1, 2]))[..., None]
+            elif kind == "poynting" and dsp.get("keep_all_components"):
+                red_h, red_f = [], []
+                for i in range(3):
+                    ah = [wh[a] if a != i else np.ones_like(wh[a]) for a in range(3)]
+                    af = [wf[a] if a != i else np.ones_like(wf[a]) for a in range(3)]
+                    red_h.append(np.tensordot(S_h[:, :, i], ah[0][:, None, None] * ah[1][None, :, None] * ah[2][None, None, :], axes=([-3, -2, -1], [0, 1, 2])))
+                    red_f.append(np.tensordot(S_f[:, :, i], af[0][:, None, None] * af[1][None, :, None] * af[2][None, None, :], axes=([-3, -2, -1], [0, 1, 2])))
+                red_h, red_f = np.stack(red_h, axis=-1), np.stack(red_f, axis=-1)
             elif kind == "poynting":
                 pa = dsp.get("fixed_propagation_axis")
                 if pa is None:
